@@ -30,6 +30,15 @@ def run(tier):
         r = run.mc("GlvDecompose", "MC_Glv_%s.cfg" % bad, timeout=600, expect_ok=False)
         if "Invariant Recombines is violated" not in r.out:
             raise vlib.Infra("GlvDecompose variant %s was not rejected: invariants vacuous?" % bad)
+    # the multiplication loops themselves (table fill, digit-driven double/add, the interleaved two- and four-scalar loops with their index
+    # bounds and sign rules) on a group where the answer is an integer: every scalar of the accepted width; broken variants must be rejected
+    for cfg in (["single_b8w4", "single_b10w2", "glv_x4", "powx_x5"] if tier == "quick" else
+                ["single_b8w4", "single_b10w2", "single_b10w3", "single_b12w4", "glv_x3", "glv_x4", "glv_x7", "powx_x5", "powx_x7", "powx_x13"]):
+        run.mc("WnafMul", "MC_Wnaf_%s.cfg" % cfg, timeout=900)
+    for bad in ("bad_powx", "bad_glv", "bad_single"):
+        r = run.mc("WnafMul", "MC_Wnaf_%s.cfg" % bad, timeout=600, expect_ok=False)
+        if "Invariant Correct is violated" not in r.out:
+            raise vlib.Infra("WnafMul variant %s was not rejected: invariants vacuous?" % bad)
     cases = run.generate("Gen_Curve", "scalars", env={"WHAT": "scalars"})
     traces = []
     for cfg in (["asm", "p32"] if tier == "quick" else ["asm", "p64", "p32"]):
